@@ -72,6 +72,9 @@ def cases(draw):
             b['variant'] = draw(st.sampled_from(['plain', 'plain', 'chain', 'zero_timer']))
         if kind == 'repeat':
             b['dest'] = draw(st.integers(0, n - 1))
+        if kind == 'input' and draw(st.integers(0, 2)) == 0:
+            # persistent with a saved state: restored by an event in the first phase of the start-up
+            b['saved'] = draw(st.integers(0, 2))
         blocks.append(b)
     for i, b in enumerate(blocks):
         if not TRIGGERS[b['kind']]:
@@ -129,6 +132,7 @@ class Model:
         n = len(self.blocks)
         self.busy = [False] * n
         self.inited = [False] * n
+        self.step1_done = [False] * n
         self.cur = [UNDEF] * n          # input value / counter value / fsm state / relay count
         self.fsm_out = [UNDEF] * n      # output of an FSM (may lag behind the state after a failed event)
         self.unknown = 0                # non-fatal failures of internal events
@@ -169,13 +173,32 @@ class Model:
         finally:
             self.busy[i] = False
 
+    def restore(self, i):
+        """first initialisation step: saved state (Input restores it by a 'put' event); a failure
+        of the restoration is only logged - unless it is the refusal of a recursive event, which
+        has stopped the simulation on its way"""
+        if self.step1_done[i]:
+            return
+        self.step1_done[i] = True
+        b = self.blocks[i]
+        if b['kind'] == 'input' and b.get('saved') is not None:
+            self.inited[i] = True           # initialisation in progress: no early initialisation
+            try:
+                self.deliver(i, None, b['saved'], 'put')
+            except Unknown:
+                pass
+            finally:
+                self.inited[i] = False
+
     def init(self, i):
         if self.inited[i]:
             return
+        self.restore(i)
         self.inited[i] = True
         kind = self.blocks[i]['kind']
         if kind == 'input':
-            self.deliver(i, None, 0, 'put')         # init_from_value -> event('put')
+            if self.cur[i] is UNDEF:
+                self.deliver(i, None, 0, 'put')         # init_from_value -> event('put')
         elif kind == 'counter':
             # init_from_value is a plain call (not an event): the block is not busy meanwhile
             self.cur[i] = 0
@@ -250,6 +273,8 @@ class Model:
     def startup(self):
         """-> True if the circuit starts, False if a busy block is hit during start-up"""
         try:
+            for i in range(len(self.blocks)):
+                self.restore(i)
             for i in range(len(self.blocks)):
                 if self.blocks[i]['kind'] in ('repeat', 'ofunc'):
                     self.inited[i] = True
@@ -377,6 +402,7 @@ def execute(case):
         MAXDEPTH[0] = 0
         circuit = edzed.get_circuit()
         real = []
+        storage = harness.DeepCopyDict()
         for i, b in enumerate(blocks):
             name = f'b{i}'
             kind = b['kind']
@@ -386,7 +412,10 @@ def execute(case):
             if kind == 'relay':
                 blk = Relay(name, on_fwd=evs('fwd'))
             elif kind == 'input':
-                blk = edzed.Input(name, initdef=0, on_output=evs('on_output', True))
+                blk = edzed.Input(name, initdef=0, on_output=evs('on_output', True),
+                                  persistent=b.get('saved') is not None)
+                if b.get('saved') is not None:
+                    storage[blk.key] = b['saved']
             elif kind == 'counter':
                 blk = edzed.Counter(name, on_output=evs('on_output', True),
                                     on_every_output=evs('on_every_output', True))
@@ -403,6 +432,8 @@ def execute(case):
                                        on_error=None)
             instrument(blk)
             real.append(blk)
+        if storage:
+            circuit.set_persistent_data(storage)
         sim = harness.Running()
         await sim.__aenter__()
         obs['started'] = sim.init_error is None
@@ -520,5 +551,7 @@ def execute(case):
         res.classes.append('benign bad event present')
     if model.unknown:
         res.classes.append('internal event refused by its destination (non-fatal)')
+    if any(b.get('saved') is not None for b in blocks):
+        res.classes.append('state restored by an event during start-up')
     res.outcome = {'fatal': fatal, 'steps': len(obs['steps'])}
     return res
